@@ -112,7 +112,7 @@ Print Assumptions run_idempotent.
 
 (* The source contains exactly the effects the model accounts for: one write-capable call
    (fs::write in generate_report), read_dir x4 / is_dir x3 / read_to_string x4 (three analyze_dir
-   and Opts::new), process::exit x1 (Opts::new) ... *)
+   and Opts::new), process::exit x2 (Opts::new exit(1); main exit(101) after a panic of the analysis thread), one thread spawned and joined by main ... *)
 Theorem effects_match_model :
   effects_write = expected_write /\ effects_read = expected_read /\ effects_process = expected_process.
 Proof. exact effects_match_model_lemma. Qed.
@@ -121,7 +121,7 @@ Print Assumptions effects_match_model.
 Theorem effect_counts :
   count "fs::read_dir" effects = 4%nat /\ count "fs::read_to_string" effects = 4%nat /\
   count ".is_dir()" effects = 3%nat /\ count "fs::write" effects = 1%nat /\
-  count "process::exit" effects = 1%nat /\ List.length effects = 13%nat.
+  count "process::exit" effects = 2%nat /\ count "thread spawn" effects = 1%nat /\ List.length effects = 16%nat.
 Proof. exact effect_counts_lemma. Qed.
 Print Assumptions effect_counts.
 
